@@ -371,19 +371,22 @@ Definition U16 : Z := 65536.
 Definition add_u16 (m : mode) (a b : Z) : cres Z :=
   if a + b <? U16 then COk (a + b) else match m with Debug => CPanic | Release => COk ((a + b) mod U16) end.
 
-(* CustomCharset::glyph_id_for_sid_in_ranges (formats 1 and 2): `glyph_id` is a u16 counter that
-   starts at CHARSET_FIRST_GID; the hit test, the index inside the range and the number of glyphs a
-   range covers are regenerated from the source (Gen/Type2Consts.v) *)
+(* CustomCharset::glyph_id_for_sid_in_ranges (formats 1 and 2), as repaired by 6f1050b: `glyph_id` is a
+   u32 counter that starts at CHARSET_FIRST_GID and is advanced with checked_add (None on overflow); a
+   hit is converted with u16::try_from (None above 65535).  The hit test, the index inside the range
+   and the number of glyphs a range covers are regenerated from the source (Gen/Type2Consts.v) *)
+Definition U32 : Z := 4294967296.
+Definition chk_u16 (v : Z) : option Z := if v <? U16 then Some v else None.
 Fixpoint gid_for_sid_in_ranges (m : mode) (ranges : list (Z * Z)) (sid gid : Z) : cres (option Z) :=
   match ranges with
   | [] => COk None
   | (first, n_left) :: r =>
     if charset_range_hit first n_left sid then
-      g <~ add_u16 m gid (charset_range_index first sid) ;; COk (Some g)
+      COk (chk_u16 (gid + charset_range_index first sid))
     else
-      n <~ add_u16 m 0 (charset_range_skip n_left) ;;
-      g <~ add_u16 m gid n ;;
-      gid_for_sid_in_ranges m r sid g
+      if gid + charset_range_skip n_left <? U32 then
+        gid_for_sid_in_ranges m r sid (gid + charset_range_skip n_left)
+      else COk None
   end.
 
 (* Charset::sid_to_gid / CustomCharset::sid_to_gid *)
@@ -499,8 +502,7 @@ Definition visit_op (op : Z) (off : Z) (s : ist) : cres ist :=
   | Some f => '(p, c) <~ pvisit f (ps s) (drop off (stk s)) ;; COk (set_ps s p c)
   end.
 
-(* u32 arithmetic on stems_len *)
-Definition U32 : Z := 4294967296.
+(* u32 arithmetic on stems_len (U32 is defined with the charset lookup above) *)
 Definition add_u32 (m : mode) (a b : Z) : cres Z :=
   if a + b <? U32 then COk (a + b) else match m with Debug => CPanic | Release => COk ((a + b) mod U32) end.
 
